@@ -134,6 +134,11 @@ func LoadEnv(dir string, extraEnv []string, patterns ...string) (*Prog, error) {
 		}
 		log = append(renames, log...)
 		p.Flattened = log
+		if os.Getenv("ECHVERIF_FLATLOG") != "" {
+			for _, l := range log {
+				fmt.Fprintln(os.Stderr, "flatten:", l)
+			}
+		}
 		p.anchors = anchors
 		if len(log) > 0 {
 			p.srcFuncs = nil
